@@ -30,8 +30,7 @@ def rng_digest():
 
 
 def learned(system, xprobe):
-    d = sc.state_digest(system)
-    d.pop('_domains', None)
+    d = sc.state_digest(system)     # includes the variable domains (coupling bounds are learned state)
     d['_pred'] = {k: np.asarray(v).tolist() for k, v in system.predict(xprobe, index_set='train').items()}
     return json.dumps(d, sort_keys=True, default=str)
 
@@ -45,6 +44,11 @@ def run_case(ctx, res, spec, nconf):
     # a test set for monitoring (true model outputs at random inputs)
     np.random.seed(11)
     xt = base_sys.sample_inputs(8)
+    # … plus the corners of the input domain, where the surrogate's coupling predictions are most extreme
+    names = list(xt.keys())
+    corners = list(__import__('itertools').product(*[base_sys.inputs()[n].get_domain() for n in names]))[:8]
+    xt = {n: np.concatenate([np.atleast_1d(xt[n]), np.array([float(base_sys.inputs()[n].normalize(c[i])) for c in corners])])
+          for i, n in enumerate(names)}
     yt = base_sys.predict(xt, use_model='best')
     from amisc.utils import to_model_dataset
     xt_model = to_model_dataset(xt, base_sys.inputs())[0]
@@ -69,10 +73,14 @@ def run_case(ctx, res, spec, nconf):
                 system.set_logger(log_file=tmpf.name)
             np.random.seed(spec['seed'] % 2 ** 31)
             buf = io.StringIO()
+            undo = watch_monitors(system, xprobe, res, {'spec': spec, 'options': opts}) if opts.get('watch') else (lambda: None)
             with contextlib.redirect_stdout(buf), contextlib.redirect_stderr(buf):
-                system.fit(max_iter=steps, num_refine=30, max_tol=-np.inf,
-                           test_set=test_set if opts['test_set'] else None, save_interval=opts['save'],
-                           plot_interval=opts['plot'], start_test_check=opts.get('start', None))
+                try:
+                        system.fit(max_iter=steps, num_refine=30, max_tol=-np.inf,
+                               test_set=test_set if opts['test_set'] else None, save_interval=opts['save'],
+                               plot_interval=opts['plot'], start_test_check=opts.get('start', None))
+                finally:
+                    undo()
             return learned(system, xprobe), rng_digest()
         finally:
             import logging, os
@@ -87,7 +95,7 @@ def run_case(ctx, res, spec, nconf):
     allc = [{'test_set': t, 'save': s, 'plot': p, 'root': r, 'log': lg}
             for t in (False, True) for s in (0, 2) for p in (0, 1, 3) for r in (False, True) for lg in ('none', 'stdout', 'file')]
     rng.shuffle(allc)
-    must = [{'test_set': True, 'save': 2, 'plot': 1, 'root': True, 'log': 'stdout'},
+    must = [{'test_set': True, 'save': 2, 'plot': 1, 'root': True, 'log': 'stdout', 'watch': True},
             {'test_set': True, 'save': 0, 'plot': 0, 'root': False, 'log': 'none', 'start': 1}]
     for opts in must + allc[:max(0, nconf - len(must))]:
         got = train(opts)
@@ -119,6 +127,38 @@ def run_case(ctx, res, spec, nconf):
         res.hit('effect-table-' + name)
 
 
+def watch_monitors(system, xprobe, res, info):
+    """in-situ validation of the effect table: every call that fit() itself makes to a monitoring callee (with the arguments
+    fit really passes) must leave the learning state and the NumPy stream unchanged"""
+    cls = type(system)
+    originals = {}
+
+    def wrap(name):
+        orig = getattr(cls, name)
+        originals[name] = orig
+
+        def wrapped(self, *a, **k):
+            if self is not system:
+                return orig(self, *a, **k)
+            before = (json.dumps(sc.state_digest(self), sort_keys=True, default=str), rng_digest())
+            out = orig(self, *a, **k)
+            after = (json.dumps(sc.state_digest(self), sort_keys=True, default=str), rng_digest())
+            if before != after:
+                res.failures.append({'kind': 'monitoring-callee-is-not-read-only', 'input': {**info, 'callee': name, 'in_situ': True},
+                                     'observed': 'learning state changed' if before[0] != after[0] else 'NumPy stream consumed'})
+            res.hit('in-situ-' + name)
+            return out
+        setattr(cls, name, wrapped)
+    for name in ('test_set_performance', 'save_to_file', 'plot_slice'):
+        if hasattr(cls, name):
+            wrap(name)
+
+    def undo():
+        for name, orig in originals.items():
+            setattr(cls, name, orig)
+    return undo
+
+
 def save_tmp(system):
     d = tempfile.mkdtemp(prefix='amisc_c19s_')
     try:
@@ -136,7 +176,8 @@ def run(ctx: core.Ctx, only=None) -> core.Result:
                 'are validated to be read-only on the real code. Every case is non-trivial.')
     specs = [o.get('input', o).get('spec', o.get('input', o)) for o in only] if only is not None else \
         [c.get('spec', c) for c in core.corpus_cases('C19')] + \
-        [sc.gen_system_spec(ctx.rng, allow_nosurr=False) for _ in range(ctx.scale(2, 6))]
+        [dict(sc.gen_system_spec(ctx.rng, allow_nosurr=False), coupling_domain=[(-1.0, 3.0), (0.9, 1.1), (0.2, 0.6)][(k + 1) % 3])
+         for k in range(ctx.scale(2, 6))]
     for spec in specs:
         with core.guarded(res, 'scenario-raised', {'spec': spec}):
             run_case(ctx, res, spec, ctx.scale(6, 40))
